@@ -132,8 +132,60 @@ def generate():
     for fam, f in (('et', fns), ('dt', dfns)):
         gs[f'{fam}_export_limit'] = guarded(f, fam, 'set_grid_export_limit', 'get_grid_export_limit', 'export_limit')
         gs[f'{fam}_dod'] = guarded(f, fam, 'set_ongrid_battery_dod', 'get_ongrid_battery_dod', 'dod')
-    out = ["(* GENERATED by tools/om2v.py from goodwe/et.py and goodwe/inverter.py -- do not edit.  Regenerated on every check run. *)",
-           "From Coq Require Import ZArith List String.", "From GW Require Import Modes.", "Import ListNotations.", "Open Scope Z_scope.", ""]
+    # ES.set_operation_mode: the dispatcher as step lists, and the work mode each mode helper commands last
+    est = ast.parse(open(os.path.join(REPO, 'goodwe', 'es.py')).read(), 'es.py')
+    ecls = next(c for c in est.body if isinstance(c, ast.ClassDef) and c.name == 'ES')
+    efns = {n.name: n for n in ecls.body if isinstance(n, (ast.FunctionDef, ast.AsyncFunctionDef))}
+    HELPERS = {'_set_general_mode': 'HGeneral', '_set_offgrid_mode': 'HOffGrid', '_set_backup_mode': 'HBackup', '_set_eco_mode': 'HEco'}
+    ES_ECO_PRE = ECO_PRE[:3] + ["await self._read_setting(eco_mode)", "eco_mode.set_schedule_type(ScheduleType.ECO_MODE, False)", ECO_PRE[5]]
+
+    def es_step(n):
+        src = ast.unparse(n)
+        mh = re.fullmatch(r'await self\.(_set_\w+_mode)\(\)', src)
+        if mh and mh.group(1) in HELPERS: return f'EsHelper {HELPERS[mh.group(1)]}'
+        mw = re.fullmatch(r"await self\.write_setting\('(\w+)', (\d+)\)", src)
+        if mw: return f'EsWrite "{mw.group(1)}"%string {mw.group(2)}'
+        if src == "raise InverterError('Operation not supported.')": return 'EsUnsupported'
+        fail(n, 'ES.set_operation_mode: step not understood')
+    efn = efns.get('set_operation_mode')
+    if not isinstance(efn, ast.AsyncFunctionDef) or [a.arg for a in efn.args.args] != ['self', 'operation_mode', 'eco_mode_power', 'eco_mode_soc'] \
+            or [ast.unparse(d) for d in efn.args.defaults] != ['100', '100']:
+        raise Unsupported('om2v: ES.set_operation_mode signature')
+    ebody = [n for n in efn.body if not (isinstance(n, ast.Expr) and isinstance(n.value, ast.Constant))]
+    if len(ebody) != 1 or not isinstance(ebody[0], ast.If): fail(efn, 'ES.set_operation_mode is not one if/elif chain')
+    esteps = {}
+    node = ebody[0]
+    while True:
+        ms = branch_modes(node.test)
+        nb = [n for n in node.body if not is_log(n)]
+        if any(k in esteps for k in ms): fail(node, 'mode handled twice')
+        if ms == ['ECO_CHARGE', 'ECO_DISCHARGE']:
+            if [ast.unparse(n) for n in nb[:len(ES_ECO_PRE)]] != ES_ECO_PRE: fail(node, 'the emulated eco-mode branch of ES does not have the modelled prefix')
+            rest = [es_step(n) for n in nb[len(ES_ECO_PRE):]]
+            esteps['ECO_CHARGE'] = ['EsCheckRange', 'EsEcoGroup true'] + rest
+            esteps['ECO_DISCHARGE'] = ['EsCheckRange', 'EsEcoGroup false'] + rest
+        else:
+            esteps[ms[0]] = [es_step(n) for n in nb]
+        if len(node.orelse) == 1 and isinstance(node.orelse[0], ast.If): node = node.orelse[0]
+        elif not node.orelse: break
+        else: fail(node, 'else branch')
+    finals = {}
+    for hname, hcon in HELPERS.items():
+        hf = efns.get(hname)
+        if not isinstance(hf, ast.AsyncFunctionDef) or [a.arg for a in hf.args.args] != ['self']: raise Unsupported(f'om2v: ES.{hname} signature')
+        for x in ast.walk(hf):
+            if isinstance(x, (ast.Return, ast.Raise, ast.Try, ast.While, ast.For)): fail(x, f'ES.{hname}: control flow that may skip the last statement')
+        mlast = re.fullmatch(r'await self\._set_work_mode\(OperationMode\.(\w+)\)', ast.unparse(hf.body[-1]))
+        if not mlast or mlast.group(1) not in MODES: fail(hf, f'ES.{hname} does not end with _set_work_mode(OperationMode.X)')
+        if sum(1 for x in ast.walk(hf) if isinstance(x, ast.Attribute) and x.attr == '_set_work_mode') != 1: fail(hf, f'ES.{hname} commands the work mode more than once')
+        finals[hcon] = MODES[mlast.group(1)]
+    swm = efns.get('_set_work_mode')
+    if not isinstance(swm, ast.AsyncFunctionDef) or [ast.unparse(n) for n in swm.body] != ["await self._read_from_socket(Aa55ProtocolCommand(f'035901{mode:02x}', '03D9'))"]:
+        raise Unsupported('om2v: ES._set_work_mode is not the single command 035901<mode>')
+    eg = [ast.unparse(n) for n in efns['get_operation_mode'].body]
+    if eg != want: fail(efns['get_operation_mode'], 'ES.get_operation_mode does not have the modelled shape')
+    out = ["(* GENERATED by tools/om2v.py from goodwe/et.py, goodwe/es.py and goodwe/inverter.py -- do not edit.  Regenerated on every check run. *)",
+           "From Coq Require Import ZArith List String.", "From GW Require Import Modes ESModes.", "Import ListNotations.", "Open Scope Z_scope.", ""]
     out.append('Definition om_values : list (mode * Z) := [' + '; '.join(f'({MODES[k]}, {v})' for k, v in values.items()) + '].')
     out.append(f'Definition om_offline : Z * list Z * list Z := ({int(m2.group(1), 0)}, {bl(m.group(1))}, {bl(m.group(2))}).')
     out.append(f'Definition om_clear : Z * Z := ({int(m3.group(1), 0)}, {m3.group(2)}).')
@@ -141,6 +193,11 @@ def generate():
     for k in MODES:
         out.append(f'  | {MODES[k]} => [' + '; '.join(steps[k]) + ']')
     out.append('  end.\n')
+    out.append('Definition es_set_mode (m : mode) : option (list esstep) :=\n  match m with')
+    for k in MODES:
+        out.append(f'  | {MODES[k]} => ' + ('Some [' + '; '.join(esteps[k]) + ']' if k in esteps else 'None'))
+    out.append('  end.')
+    out.append('Definition es_helper_final (h : eshelper) : mode :=\n  match h with ' + ' | '.join(f'{h} => {m}' for h, m in finals.items()) + ' end.\n')
     out.append('(* guarded setters with their getters: setting id, lower / upper bound of the accepted argument, `c - x` written / returned when Some c; None = not supported *)')
     for k, v in gs.items():
         out.append(f'Definition {k} : option gsetter := {v or "None"}.')
